@@ -45,13 +45,14 @@ def check(ctx, res) -> None:
         do = do or idx.find_method(c.qualname, "do")
         undo = undo or idx.find_method(c.qualname, "undo")
         kinds += 1
-        d_ops, u_ops = _ops(do.node), _ops(undo.node)
+        do_node, undo_node = common.inlined(idx, do), common.inlined(idx, undo)  # steps moved into private helpers are read in place
+        d_ops, u_ops = _ops(do_node), _ops(undo_node)
         where = undo.where
         if not d_ops:
             res.undecided("R11.1", c.name, do.where, "do performs no _operations call")
             continue
         if not u_ops:
-            raises = [n for n in walk_local(undo.node) if isinstance(n, ast.Raise)]
+            raises = [n for n in walk_local(undo_node) if isinstance(n, ast.Raise)]
             res.fail("R11.1", c.name, where,
                      f"{c.name}.undo performs no inverse operation"
                      + (" (it raises " + (ast.unparse(raises[0].exc)[:60] if raises and raises[0].exc else "") + ")" if raises else "")
@@ -80,7 +81,7 @@ def check(ctx, res) -> None:
                         why.append("undo writes the same contents as do")
                     # OLD must be assigned in do from a read of the same resource, before the write
                     old_attr = uc.args[1]
-                    cfg = CFG(do.node)
+                    cfg = CFG(do_node)
                     assigns = [n for n in cfg.nodes if n.kind == "stmt" and isinstance(n.ast, ast.Assign)
                                and any(norm(t).replace("Store", "Load") == norm(old_attr) for t in n.ast.targets)
                                and isinstance(n.ast.value, ast.Call) and call_name(n.ast.value) == "read"
